@@ -17,7 +17,8 @@ RULE = ("metamorphic relation per directory mode M in {-l, -a, -n, --plid, --src
         "thorough), structure-aware edits (PCE size < 24, callout sizes, section count...), random files, empty files and a "
         "nested directory holding valid PELs; junk names interleave with the good names in sort order.  A candidate that "
         "the mode still decodes is not junk for that mode and is left out of J.  Non-trivial: J non-empty and D non-empty.")
-ASSUMPTIONS = ["no symlinks/FIFOs/unreadable files (the statement lists regular junk files and subdirectories)",
+ASSUMPTIONS = ["no dangling symlinks/FIFOs/unreadable files (the statement lists regular junk files and subdirectories; a symbolic "
+               "link to a directory counts as a subdirectory)",
                "stderr is unconstrained", "junk classification per mode uses the decoder's own verdict on the single file"]
 
 MODES_FULL = [["-a"], ["-a", "-x"], ["-j"]]
@@ -36,7 +37,8 @@ def plan(tier, seed):
 def minimums(tier):
     return {"relation.checked": 1200, "junk.files": 8000, "junk.truncation": 1000, "junk.corruption": 4000,
             "junk.edit": 300, "junk.hostile-json": 50, "mode.-a": 100, "mode.-l": 100, "mode.-n": 100, "mode.-j": 100, "mode.--plid": 30,
-            "mode.--src": 30, "mode.--src-exclude": 30, "mode.-a -x": 30, "mode.-l -x": 30, "sub.relations_checked": 40}
+            "mode.--src": 30, "mode.--src-exclude": 30, "mode.-a -x": 30, "mode.-l -x": 30, "sub.relations_checked": 40,
+            "junk.nested_dir": 100, "junk.symlink_to_dir": 50}
 
 
 def classify(data, cls):
@@ -218,6 +220,11 @@ def run(spec, ctx):
                 for e in dirs.gen_dir_model(rng, u, 2, reg=reg):
                     dirty.add(dirs.Entry("sub%d/%s" % (rnd, e.name), e.pel, e.data, junk=True))
                 ctx.count("junk.nested_dir")
+                if rng.random() < 0.6:  # ... and a symbolic link to it (or to a directory elsewhere): a subdirectory by another name
+                    ln = [n for n in dirs.gen_names(rng, 6) if n not in {e.name for e in dirty.entries}][0]
+                    os.symlink(rng.choice(["sub%d" % rnd, os.path.join(dirty.root, "sub%d" % rnd), root]),
+                               os.path.join(dirty.root, ln))
+                    ctx.count("junk.symlink_to_dir")
             for argv in modes:
                 a = list(argv)
                 if a[0] == "--plid":
